@@ -161,8 +161,13 @@ async def run_script(world, sess, obs: SessionObs, hostport):
             elif kind == "get":
                 o = op[2] if len(op) > 2 else {}
                 if o.get("rest") is not None:
+                    # the passive command first: REST must be immediately followed by the transfer
+                    pre = await peer.passive(o.get("p", "EPSV"))
                     rec["rest"] = await peer.cmd(f"REST {o['rest']}")
-                rec["res"] = await peer.download(_fmt(op[1], prefix), passive=o.get("p", "EPSV"), connect=o.get("c", "before"), data_timeout=sess.get("data_timeout"))
+                    rec["res"] = await peer.download(_fmt(op[1], prefix), passive=None, connect=o.get("c", "before"), data_timeout=sess.get("data_timeout"))
+                    rec["res"]["pre"] = pre
+                else:
+                    rec["res"] = await peer.download(_fmt(op[1], prefix), passive=o.get("p", "EPSV"), connect=o.get("c", "before"), data_timeout=sess.get("data_timeout"))
                 rec["fs_n"] = world.fsctl.per_label.get(sess["label"], 0)
             elif kind == "get_stalled":
                 # the peer opens the data connection with a tiny receive buffer and never reads it
@@ -173,10 +178,14 @@ async def run_script(world, sess, obs: SessionObs, hostport):
                 peer.data_close()
             elif kind == "put":
                 o = op[3] if len(op) > 3 else {}
-                if o.get("rest") is not None:
-                    rec["rest"] = await peer.cmd(f"REST {o['rest']}")
                 data = payload(_fmt(op[1], prefix), op[2])
-                rec["res"] = await peer.upload(_fmt(op[1], prefix), data, passive=o.get("p", "EPSV"), connect=o.get("c", "before"), chunks=o.get("chunks"), data_timeout=sess.get("data_timeout"))
+                if o.get("rest") is not None:
+                    pre = await peer.passive(o.get("p", "EPSV"))
+                    rec["rest"] = await peer.cmd(f"REST {o['rest']}")
+                    rec["res"] = await peer.upload(_fmt(op[1], prefix), data, passive=None, connect=o.get("c", "before"), chunks=o.get("chunks"), data_timeout=sess.get("data_timeout"))
+                    rec["res"]["pre"] = pre
+                else:
+                    rec["res"] = await peer.upload(_fmt(op[1], prefix), data, passive=o.get("p", "EPSV"), connect=o.get("c", "before"), chunks=o.get("chunks"), data_timeout=sess.get("data_timeout"))
                 rec["fs_n"] = world.fsctl.per_label.get(sess["label"], 0)
             elif kind == "sleep":
                 await asyncio.sleep(op[1])
